@@ -110,6 +110,65 @@ CLAIMS["C10"] = {
 }
 
 # ------------------------------------------------------------------------------------------ C08
+SPEC["C05"] = {
+    "engine": "rust",
+    "bin": "semmon",
+    "rule": "cases = ordered pairs (S, T) of Runtype IR types with their named definitions, judged through beff-core's public API (to_sem_type + is_subtype on a fresh SemTypeContext) against a witness search: "
+            "the exact values of S (one representative per class the pair can distinguish) are enumerated and tested for (open) membership in T. Streams: all ordered pairs of types of size <= 2 over the alphabet "
+            "{null, boolean, true, number, 1, string, \"a\", arrays, 1-2-tuples with/without rest, objects over keys a/b required/optional, index signatures over string and over \"a\"|\"b\", union, intersection}; pairs with one operand of size 3 "
+            "(quick: seeded 1/4 sample, thorough: all, plus a sample of 3x3); random pairs up to size 8 with 0-3 named, mutually recursive definitions; one-edit near pairs; reflexive, S<:S|T, S&T<:S and name-vs-unfolding pairs; "
+            "every 4th random case additionally asks S<:T, T<:S and is_same_type on one context, the same question again, and on a fresh context in the opposite order. evaluations = judged decisions; distinct_nontrivial = distinct (constructor kinds of S, of T, answer) classes",
+    "floor": {"quick": 100000, "thorough": 3000000},
+    "workload_exclusions": [
+        "index signatures with number / template keys, formats, template literal types, Date/BigInt/Map/Set/typed arrays, void/undefined (outside the quantifier of the property)",
+        "numeric literals that are not small integers (beff's fixed-point literal representation is C01's recorded finding)",
+        "negation on the left-hand side (the source language has none; differences are C06/C07's subject)",
+    ],
+    "watchdog_s": {"quick": 900, "thorough": 10800},
+    "exhaustive_subruns": ["all ordered pairs of types of size <= 2 (196 types, 38416 pairs) in both tiers", "thorough: all ordered pairs with one operand of size 3 (2156 types) and the other of size <= 2"],
+}
+CLAIMS["C05"] = {
+    "technique": "reference-model monitor over the real decision procedure: every is_subtype answer is compared with a witness search over concrete values (independent interpreter of the type IR, no shared code with the engine); bounded-exhaustive + random + near-miss pair streams; CPU watchdog for termination",
+    "text": "For each pair the engine's answer is observed through the public API. The oracle enumerates the exact values of S - per position one representative of every class the two types can tell apart (mentioned literals plus a fresh one, "
+            "list lengths up to the longest mentioned prefix plus one extra element per list type of T, mentioned keys plus one fresh key per object type of T under index signatures, named types unfolded to depth 4) - and tests each for open membership in T. "
+            "`yes` with a witness outside T is a violation (sound: the witness is a concrete value, re-checked by the reference's own exact/open membership); `no` with a completely enumerated universe and no witness is a violation; `no` with a truncated universe is inconclusive. "
+            "Also checked: is_same_type = both directions; the answer does not depend on what the context has been asked before; a decision that burns 20 s of CPU is reported as non-termination. Violating pairs are shrunk (subterm replacement) while the same clause fails.",
+    "note": "The exact/open reading (left operand: declared properties only; right operand: structural) is the one the property states. Types the engine refuses with an error (`recursive type` for a recursive alias whose body is a union) are counted as refusals, not decisions.",
+}
+SPEC["C06"] = {
+    "engine": "rust",
+    "bin": "semmon",
+    "rule": "layer 1: decision diagrams reached from {True, False, 4 atoms} (two atom alphabets: one kind / mixed kinds) by union, intersect, diff, complement - breadth-first while the pool is small, then seeded random pairs from the pool; every result's 16-row truth table is compared with the Boolean combination of the operands' tables; "
+            "layer 3: for every result bdd_to_dnf read as a formula and dnf_to_bdd(bdd_to_dnf(x)) have the same table; layer 2: pairs of SemTypes built from random types (also pre-combined by complement / diff / union so that deny lists and negative atoms occur), the four operations, "
+            "membership of every probe value in the result (read from the engine's tables by the reference) = Boolean combination of the memberships in the operands. evaluations = (operation, truth table) checks + (operation, value) checks; distinct_nontrivial = distinct Boolean functions reached + distinct (operand preparation, constructor kinds) classes",
+    "floor": {"quick": 3000000, "thorough": 100000000},
+    "workload_exclusions": ["void/undefined and custom formats (their literal lists are ordered by a sub-type relation, so plain set algebra is not what the code claims there)", "Map/Set atoms and typed arrays"],
+    "watchdog_s": {"quick": 900, "thorough": 10800},
+}
+CLAIMS["C06"] = {
+    "technique": "invariant monitor on the public BddOps / SemTypeOps / bdd_to_dnf / dnf_to_bdd results with an independent evaluator: truth tables under all 16 assignments (layer 1, 3) and value membership read from the engine's own tables (layer 2)",
+    "text": "Layer 1 evaluates a diagram as (atom AND left) OR middle OR (NOT atom AND right) under all assignments of 4 atoms and requires eval(op(x,y)) = op(eval x, eval y) for every operation application explored (tens of thousands of distinct diagrams, including non-False middle branches and both atom orders). "
+            "Layer 3 requires the DNF read as a formula, and the diagram rebuilt from it, to have the table of the original. Layer 2 fixes the denotation of every atom (a value is in a mapping / list atom iff it satisfies the atom's table entry, open reading) and requires membership in A op B to be the Boolean combination of the memberships in A and B for every probe value "
+            "(exact values of both operand types, their one-step variants, pseudo values for absent / bigint / Date tags).",
+    "note": "Exactness is checked under one fixed denotation of atoms, which is all Boolean exactness needs; whether the emptiness check reads atoms consistently is C05's subject.",
+}
+SPEC["C07"] = {
+    "engine": "rust",
+    "bin": "semmon",
+    "rule": "cases = (operation in {diff, intersect, union, keyof, indexed access}, operand types with named recursive definitions): the semantic result T is materialised with semtype_to_runtypes; "
+            "names: every reference in head / helpers is defined exactly once; printable: no Function / empty union; meaning: for every probe value membership in T (read from the engine's tables) = membership in the materialised type; "
+            "for diff additionally the type after remove_nots_of_intersections_and_empty_of_union (what Exclude hands to code generation when no negation is left) against `exact value of A and not a value of B`. "
+            "evaluations = (case, value) membership comparisons + name checks; distinct_nontrivial = distinct (operation, constructor kinds of the materialised type) classes",
+    "floor": {"quick": 10000000, "thorough": 300000000},
+    "workload_exclusions": ["results that still contain a negation are refused by the frontend with a diagnostic (ensure_no_negation) and are counted, not judged", "formats, templates, Date/Map/Set (outside the fragment)"],
+    "watchdog_s": {"quick": 900, "thorough": 10800},
+}
+CLAIMS["C07"] = {
+    "technique": "round-trip monitor on the public materialisation API: the semantic type and the Runtype handed to code generation are both interpreted by the reference over the same probe values; helper-name bookkeeping is checked on the returned definition lists",
+    "text": "For every computed semantic type the monitor observes semtype_to_runtypes' head and helper definitions, and (for differences) the result of remove_nots_of_intersections_and_empty_of_union, i.e. exactly what the frontend inserts and returns. "
+            "A reference that is not backed by exactly one definition, an unprintable construct, or a probe value on which the materialised type and the semantic type disagree is a violation. The source-level counterpart (validators of Exclude / keyof / T[K] against the TypeScript reference) is part of C01's stream.",
+    "note": "Membership is compared under one fixed reading of the atoms (materialisation is a transliteration of the diagram, so this is reading-independent); the Exclude step is compared under the exact-left / open-right reading the engine itself uses.",
+}
 SPEC["C08"] = {
     "engine": "node",
     "rule": "cases = (program, composition of 1-5 rewrites from the catalog of DESIGN.md appendix B): union/intersection/property/declaration permutation, alias introduce / inline / rename, identity-generic wrapping, "
